@@ -953,6 +953,67 @@ content:
 		r.Violate(sig+":spin-when-idle", spin+"\nconfig "+c.cell(), c)
 		return
 	}
+	// ---- the application closes the session of the first remote while the listener stays; when
+	// that remote (same address, same port) sends again, its datagram belongs to a live logical
+	// connection - a new one - not to the one that has been closed
+	if cn0 := byRemote[rs[0].id]; cn0 != nil && c.Index%2 == 0 {
+		_ = cn0.Close()
+		for i := 0; i < 400; i++ {
+			if cl, _ := cn0.IsClosed(); cl {
+				break
+			}
+			time.Sleep(time.Millisecond)
+		}
+		d := make([]byte, 64)
+		binary.BigEndian.PutUint32(d[0:4], rs[0].id)
+		binary.BigEndian.PutUint32(d[4:8], 0xFFFFFFF0)
+		for i := 8; i < len(d); i++ {
+			d[i] = byte(0xA0 + i%7)
+		}
+		find := func() *nbio.Conn {
+			rec.mu.Lock()
+			order := append([]*nbio.Conn(nil), rec.order...)
+			rec.mu.Unlock()
+			for _, cn := range order {
+				l := rec.get(cn)
+				l.mu.Lock()
+				for _, x := range l.dgrams {
+					if string(x) == string(d) {
+						l.mu.Unlock()
+						return cn
+					}
+				}
+				l.mu.Unlock()
+			}
+			return nil
+		}
+		var where *nbio.Conn
+		for try := 0; try < 3 && where == nil; try++ {
+			if _, err := rs[0].conn.Write(d); err != nil {
+				break
+			}
+			for i := 0; i < 100 && where == nil; i++ {
+				time.Sleep(2 * time.Millisecond)
+				where = find()
+			}
+		}
+		switch {
+		case where == cn0:
+			r.Violate(sig+":datagram-handed-to-closed-connection", fmt.Sprintf("the application closed the logical connection of remote %s; a datagram the same remote sent afterwards was handed to the data callback with that closed connection (no new session was opened: replies on it fail, its deadlines are gone)\nconfig %s", rs[0].conn.LocalAddr(), c.cell()), c)
+			return
+		case where == nil:
+			if d2, ok := udpDrops(ua.Port); ok && d2 == 0 {
+				if q, qerr := outb.InQ(int(atomic.LoadInt64(&udpListenFd))); qerr == nil && q == 0 {
+					r.Violate(sig+":datagram-after-session-close-not-delivered", fmt.Sprintf("the application closed the logical connection of remote %s; datagrams the same remote sent afterwards (3 copies) were read from the socket (nothing queued, kernel drop counter 0) but never handed to the data callback\nconfig %s", rs[0].conn.LocalAddr(), c.cell()), c)
+					return
+				}
+			}
+			r.Inconclusive(fmt.Sprintf("case %d: datagram after a session close undecided", c.Index))
+			return
+		default:
+			r.Count("udp_sessions_reopened_after_an_application_close", 1)
+		}
+	}
 	r.Seen("cells", fmt.Sprintf("%s/%s/async=%v/%s", c.Net, c.Mode, c.Async, c.Exec))
 	r.Seen("full_cells", c.cell())
 	if c.UDPBind != "" {
